@@ -3,8 +3,10 @@ NEXT Next
 CHECK_DEADLOCK FALSE
 CONSTANTS
   Tokens <- TokFull
-  MaxTok = 2
+  TokensLong <- TokQ3
+  MaxTok = 3
+  FullUpTo = 2
   EmitFrom = 0
   Subjects <- SubjQ
+  SubjectsLong <- SubjQL
   Univ <- UnivAll
-  Bat = "full"
